@@ -378,6 +378,7 @@ class Scope:
         self.parent = parent
         self.label = label
         self.unspec = set()
+        self.imported = set()   # names bound here by a require
 
     def lookup(self, name):
         s = self
@@ -399,6 +400,7 @@ class Scope:
 
 
 ERROR = "ERROR"
+UNSPEC = object()
 
 
 class Machine:
@@ -722,8 +724,12 @@ class Machine:
             obj = s.vars[E[1]]
             if not isinstance(obj, ModObj):
                 raise Unspec("deref of non-module")
+            if E[2].startswith("_"):
+                self.stat("private_member_attempt")
             if E[2] not in obj.members:
                 return None        # object member lookup yields NULL
+            if obj.members[E[2]] is UNSPEC:
+                raise Unspec("re-exported member")
             return obj.members[E[2]]
         if t == "mcall":
             s = scope.lookup(E[1])
@@ -732,9 +738,13 @@ class Machine:
             obj = s.vars[E[1]]
             if not isinstance(obj, ModObj):
                 raise Unspec("deref of non-module")
+            if E[2].startswith("_"):
+                self.stat("private_member_attempt")
             if E[2] not in obj.members:
                 raise Err(ERROR, "member not found")
             fn = obj.members[E[2]]
+            if fn is UNSPEC:
+                raise Unspec("re-exported member")
             if not isinstance(fn, Fn):
                 raise Err(ERROR, "not a function")
             args = [self.ev(x, scope) for x in E[3]]
@@ -787,50 +797,84 @@ class Machine:
                     if not isinstance(v, str):
                         raise Err(ERROR, "bad modulespec")
                     mid = v
+                    self.stat("modulespec_from_string_variable")
         else:
             mid = spec["str"]
+            self.stat("modulespec_string_literal")
+        # the module identifier is the last path component without .ckl
+        mid = mid.split("/")[-1]
+        if mid.endswith(".ckl"):
+            mid = mid[:-4]
+        if scope.label.startswith("call:"):
+            self.stat("require_inside_function")
+        if scope.label.startswith("mod:"):
+            self.stat("require_inside_module")
         mscope = self.load(mid, scope)
         public = [n for n in mscope.vars if not n.startswith("_")]
+        self.stat("form_" + form)
+
+        def maybe(n):
+            """names a module got from its own imports: whether they count
+            as its public definitions is left open by the statement"""
+            return n in mscope.imported or n in mscope.unspec
+
         if form == "unq":
-            for n in public:
-                v = mscope.vars[n]
-                if isinstance(v, ModObj):
-                    # whether a module re-exports the module objects it
-                    # imported itself is left open by the statement
-                    if not (n in scope.vars
-                            and isinstance(scope.vars[n], ModObj)
-                            and scope.vars[n].mod == v.mod):
+            for n in list(public) + sorted(mscope.unspec):
+                v = mscope.vars.get(n)
+                if isinstance(v, ModObj) or maybe(n):
+                    same = (n in scope.vars and n not in scope.unspec
+                            and scope.vars[n] is v and v is not None
+                            and not isinstance(v, ModObj))
+                    if isinstance(v, ModObj) and n in scope.vars and \
+                            isinstance(scope.vars[n], ModObj) and \
+                            scope.vars[n].mod == v.mod:
+                        same = True
+                    if not same:
                         scope.vars.pop(n, None)
                         scope.unspec.add(n)
                     continue
                 scope.vars[n] = v
                 scope.unspec.discard(n)
+                scope.imported.add(n)
         elif form == "imp":
             for a, b in extra:
-                if a.startswith("_") or a not in mscope.vars:
+                if a.startswith("_"):
+                    self.stat("private_import_attempt")
                     continue
-                v = mscope.vars[a]
-                if isinstance(v, ModObj):
+                if a in mscope.unspec or (a in mscope.vars and (
+                        maybe(a) or isinstance(mscope.vars[a], ModObj))):
                     scope.vars.pop(b, None)
                     scope.unspec.add(b)
                     continue
-                scope.vars[b] = v
+                if a not in mscope.vars:
+                    continue
+                scope.vars[b] = mscope.vars[a]
                 scope.unspec.discard(b)
+                scope.imported.add(b)
         else:
-            name = extra if form == "as" else mid.split("/")[-1]
-            members = {n: mscope.vars[n] for n in public
-                       if not isinstance(mscope.vars[n], ModObj)}
+            name = extra if form == "as" else mid
+            members = {}
+            for n in public:
+                v = mscope.vars[n]
+                if isinstance(v, ModObj):
+                    continue
+                members[n] = UNSPEC if maybe(n) else v
+            for n in mscope.unspec:
+                members[n] = UNSPEC
             scope.vars[name] = ModObj(mid, members)
             scope.unspec.discard(name)
+            scope.imported.add(name)
         self.effect()
         return None
 
     def load(self, mid, scope):
         if mid in self.stack:
+            self.stat("cycle_reported")
             raise Err(ERROR, "circular")
         self.stack.append(mid)
         try:
             if mid in self.loaded:
+                self.stat("cached_module_used")
                 return self.loaded[mid]
             stmts = self.store.fetch(self, mid, scope)
             mscope = Scope(None, "mod:" + mid)
@@ -839,6 +883,8 @@ class Machine:
                 raise Unspec("control flow at module top level")
             self.loaded[mid] = mscope
             self.loads.append(mid)
+            if len(self.stack) > 1:
+                self.stat("nested_load_completed")
             return mscope
         finally:
             self.stack.pop()
@@ -927,7 +973,12 @@ class ModelStore:
                     found = p
                     break
         if found is None:
+            m.stat("module_not_found")
             raise Err(ERROR, "module not found")
+        if sum(1 for c in [self.home] + (list(self.paths) if visible
+                                         else [])
+               if c + "/" + fname in self.files) > 1:
+            m.stat("shadowed_module_resolved")
         f = io.hit("fs.open", found) if io else None
         if f is not None:
             raise HostErr("open")
@@ -939,6 +990,7 @@ class ModelStore:
             if err.startswith("SHORT"):
                 k = int(err.split(":")[1]) if ":" in err else 1
                 lines = k
+                m.stat("torn_read")
             else:
                 raise HostErr("read")
         if "raw" in entry:
